@@ -280,7 +280,7 @@ def s_unicode_case(s, which):
 
 
 def s_repeat(s, n):
-    return Str(s.cs * n)
+    return Str(s.cs * int(n))
 
 
 def parse_uint(interp, s, bits=64):
